@@ -751,7 +751,20 @@ def rule_ver(ctx) -> None:
     be = ctx.func(STORE + "._bump_etag")
     loops = [x for x in walk_no_defs(be.node) if isinstance(x, ast.For)]
     iterates = {a for l in loops for a in ("nodes", "edges") if a in src(l.iter)}
-    feeds_weight = any("weight" in src(l) for l in loops)
+    # the field reaches the digest: it occurs in the argument of an update() call of the loop, directly or through a local of
+    # the loop body that was computed from it (w = float(e.weight) ... h.update(repr((.., w, ..))))
+    def _feeds(l, field: str) -> bool:
+        ups = [c for st in l.body for c in ast.walk(st) if isinstance(c, ast.Call) and call_tail(c) == "update"]
+        carriers = {field}
+        for _ in range(2):
+            for st in l.body:
+                for a in ast.walk(st):
+                    if isinstance(a, (ast.Assign, ast.AnnAssign)) and a.value is not None and any(
+                            (isinstance(y, ast.Attribute) and y.attr in carriers) or (isinstance(y, ast.Name) and y.id in carriers) or (isinstance(y, ast.Constant) and y.value in carriers) for y in ast.walk(a.value)):
+                        carriers |= {t.id for t in (a.targets if isinstance(a, ast.Assign) else [a.target]) if isinstance(t, ast.Name)}
+        return any((isinstance(y, ast.Attribute) and y.attr in carriers) or (isinstance(y, ast.Name) and y.id in carriers) or (isinstance(y, ast.Constant) and y.value in carriers)
+                   for c in ups for arg_ in c.args for y in ast.walk(arg_))
+    feeds_weight = any(isinstance(l, ast.For) and _feeds(l, "weight") for l in loops)
     feeds_label = any("label" in src(l) for l in loops)
     content = iterates == {"nodes", "edges"} and feeds_weight and feeds_label
     chained = any(isinstance(x, ast.Attribute) and x.attr == "version_etag" and isinstance(x.ctx, ast.Load) for x in walk_no_defs(be.node))
